@@ -195,7 +195,13 @@ func c07Profiles(tier Tier) []*explore.Profile {
 			for _, tok := range [][]byte{uni.S, uni.R} {
 				hi := int64(w.Ghost.Highest[string(tok)])
 				for _, a := range users(o) {
-					acts = append(acts, uni.Create(a, tok, 1))
+					acts = append(acts, uni.Create(a, tok, 1), uni.Create(a, tok, 2))
+					// giving up an older holding entirely (its key becomes free again)
+					for n := int64(1); n <= 2 && n < hi; n++ {
+						if h := held(w, a, string(tok)+spec.NonceSuffix(uint64(n))); h > 0 {
+							acts = append(acts, uni.Call(a, a, vmcommon.BuiltInFunctionESDTNFTBurn, tok, uni.Big(n), uni.Big(h)))
+						}
+					}
 					if hi > 0 {
 						if held(w, a, string(tok)+spec.NonceSuffix(uint64(hi))) > 0 {
 							acts = append(acts, uni.Call(a, a, vmcommon.BuiltInFunctionESDTNFTBurn, tok, uni.Big(hi), uni.Big(1)))
@@ -218,7 +224,7 @@ func c07Profiles(tier Tier) []*explore.Profile {
 			return acts
 		},
 	}
-	return []*explore.Profile{p, highNonceProfile("high-nonce", tier, []explore.Oracle{&nonceOracle{property: "C07"}}, 1)}
+	return []*explore.Profile{p, highNonceProfile("high-nonce", tier, []explore.Oracle{&nonceOracle{property: "C07"}}, 3)}
 }
 
 func handoverMenu(w *world.World, o menuOpts, toks [][]byte) []world.Action {
